@@ -21,7 +21,8 @@ TECHNIQUE = ('runtime monitoring: offline trace oracle over handler call/return 
 LEVEL_TEXT = ('Held on the executions explored. For each directed scenario the operator process is killed at EVERY write request, once before and '
               'once after the server applied it, and restarted on the left-over state; random scenarios add lifecycles, storages, sub-handlers, '
               'foreign events, graceful restarts and random kill points. The oracle reads progress records from the server-side history, not from '
-              'kopf. Crash points are enumerated exhaustively only for the directed corpus; the rest is sampled.')
+              'kopf. Crash points are enumerated exhaustively only for the directed corpus; the rest is sampled.'
+              ' A quarter of the random scenarios slip foreign status writes before the k-th JSON/merge patch (422 conflicts on finalizer edits); a fifth run (some) handlers as synchronous functions in real threads.')
 LEVEL_NOTE = ('Trusted: kv/fakekube.py (merge/JSON-patch semantics, watch ordering), SIGKILL emulated by a dead client + task cancellation, '
               'virtual clocks. Echo lag is kept below the consistency timeout (beyond it the statement itself excludes). Handlers with retries=/timeout= '
               'limits are left to C11.')
